@@ -558,7 +558,7 @@ func (sd *SpecAnalyser) CompareProps(type1, type2 *spec.SchemaProps) []TypeDiff 
 		return diffs
 	}
 
-	if isArray(type1) {
+	if isArray(type1) && isArray(type2) {
 		maxItemDiffs := CompareIntValues("MaxItems", type1.MaxItems, type2.MaxItems, WidenedType, NarrowedType)
 		diffs = append(diffs, maxItemDiffs...)
 		minItemsDiff := CompareIntValues("MinItems", type1.MinItems, type2.MinItems, NarrowedType, WidenedType)
